@@ -74,8 +74,8 @@ class C18:
     def setup(self):
         found = set(prange_sim.discover())
         known = set(kcapture.dispatchers())
-        if found != known:
-            raise RuntimeError(f"prange kernels without a capture site: {sorted(found - known)} / stale: {sorted(known - found)}")
+        if found - known:
+            raise RuntimeError(f"prange kernels without a capture site: {sorted(found - known)}")
         for d in kcapture.dispatchers().values():
             prange_sim.transform(d)
 
@@ -229,10 +229,10 @@ class C18:
         disps = kcapture.dispatchers()
         calls = dict(cap.calls)
         # kernels no pipeline reaches: derive their arguments from the captured ones
-        if "AbstractRefinement.loop_refinement" in calls:
+        if "AbstractRefinement.loop_refinement" in calls and "AbstractRefinement.loop_approximate_refinement" in disps:
             calls["AbstractRefinement.loop_approximate_refinement"] = [
                 (approx_args_from(a), None) for a, _ in calls["AbstractRefinement.loop_refinement"][:1]]
-        if "Risk.compute_risk" in calls:
+        if "Risk.compute_risk" in calls and "Risk.compute_risk_and_sampled_risk" in disps:
             calls["Risk.compute_risk_and_sampled_risk"] = [(a, None) for a, _ in calls["Risk.compute_risk"][:1]]
         nsched = 0
         sigs = set()
